@@ -1,6 +1,7 @@
 import Pose.Wire
 import Pose.Model.Cloud
 import Pose.Driver.Lie
+import Pose.Model.Batch
 /-!
 # Driver ops for C18 (point-cloud filters, camera helpers)
 
@@ -57,6 +58,19 @@ def parseDtype (s : String) : Except String Dtype :=
 
 def parsePdim (s : String) : Except String (Option Nat) :=
   if s == "none" then .ok none else (nat s).map some
+
+
+/-- read `rank d₁ … d_rank` from the front of a token list -/
+def takeShape (ts : List String) : Except String (List Nat × List String) := do
+  match ts with
+  | r :: rest =>
+    let r ← nat r
+    let (sh, rest) ← Wire.take r rest
+    let sh ← nats sh
+    return (sh, rest)
+  | [] => throw "arity"
+
+def fmtShape (s : List Nat) : String := fmtMixed (toString s.length) (fmtNats s)
 
 def opsC18 : List (String × Handler) := [
   -- c18.knn ord largest k D N1 N2 <ref> <nbr>   ->  N1*k values, then N1*k indices
@@ -159,7 +173,7 @@ def opsC18 : List (String × Handler) := [
         let radius ← num radius; let rm ← nat rm
         let xs ← nums rest
         let (pts, _) ← takeCloud d n xs
-        match nbrFilterApi pts nn radius pdim o (rm == 1) with
+        match nbrFilterApi d pts nn radius pdim o (rm == 1) with
         | none => throw "check"
         | some (out, mask) =>
           let mtxt := match mask with
@@ -176,10 +190,11 @@ def opsC18 : List (String × Handler) := [
         let xs ← nums rest
         let (pts, _) ← takeCloud d n xs
         let r : Option BigF := if hasR == 1 then some radius else none
-        match resolvePdim pdim pts with
+        match resolvePdim pdim d with
         | none => throw "check"
         | some pd =>
-          match knnFilterApi topkStd pts kk pdim r o with
+          if normRaises o pd then throw "norm-empty"
+          match knnFilterApi topkStd d pts kk pdim r o with
           | none => throw "k-range"
           | some out =>
             let rows := (knnRetained o pd kk r pts).map fun p => pts.map (pdist o pd p)
@@ -196,7 +211,7 @@ def opsC18 : List (String × Handler) := [
         let xs ← nums rest
         let (vox, xs) ← Wire.take vdim xs
         let (pts, _) ← takeCloud d n xs
-        match voxelFilterApi truncInt uniqStd argsortStd draws pts vox (rndF == 1) with
+        match voxelFilterApi truncInt uniqStd argsortStd draws d pts vox (rndF == 1) with
         | none => throw "check"
         | some out =>
           let keys := voxKeys truncInt vox pts
@@ -247,6 +262,89 @@ def opsC18 : List (String × Handler) := [
         | none => throw "check"
         | some e => return fmt e
       | _ => throw "arity"),
+  -- c18.api.knn ord largest k D N1 N2 <ref> <nbr>   ->  like c18.knn; err norm-empty | k-range
+  ("c18.api.knn", fun ts => do
+      match ts with
+      | o :: lg :: kk :: d :: n1 :: n2 :: rest =>
+        let o ← parseNorm o; let lg ← nat lg; let kk ← nat kk
+        let d ← nat d; let n1 ← nat n1; let n2 ← nat n2
+        let xs ← nums rest
+        let (ref, xs) ← takeCloud d n1 xs
+        let (nbr, _) ← takeCloud d n2 xs
+        let largest := lg == 1
+        if normRaises o d then throw "norm-empty"
+        match knnApi topkStd d o largest kk ref nbr with
+        | none => throw "k-range"
+        | some rows =>
+          if !(allTopkOk largest (ref.map fun r => nbr.map (dist o r)) kk) then throw "contract-topk"
+          return fmtMixed (fmt (rows.flatMap (·.1))) (fmtNats (rows.flatMap (·.2)))
+      | _ => throw "arity"),
+  -- c18.api.randf D N num B <perm(N)> <B clouds>   -> B*num*D numbers (one draw for every batch item); err check
+  ("c18.api.randf", fun ts => do
+      match ts with
+      | d :: n :: num :: b :: rest =>
+        let d ← nat d; let n ← nat n; let num ← nat num; let b ← nat b
+        let (pm, rest) ← Wire.take n rest
+        let pm ← nats pm
+        if !(isPermOfRange n pm) then throw "contract-randperm"
+        let xs ← nums rest
+        let (all, _) ← takeCloud d (n * b) xs
+        let clouds := if n == 0 then List.replicate b [] else chunk n all
+        let outs := randomFilterBatch d pm num clouds
+        if outs.any (·.isNone) then throw "check"
+        return fmt (outs.flatMap fun o => (o.getD []).flatten)
+      | _ => throw "arity"),
+  -- c18.api.p2pb dtype hasExt <shape bp> <shape bk> [<shape be>] n <points> <K> [<ext>]   -> <shape out> values; err broadcast
+  ("c18.api.p2pb", fun ts => do
+      match ts with
+      | dtp :: he :: rest =>
+        let dtp ← parseDtype dtp; let he ← nat he
+        let (bp, rest) ← takeShape rest
+        let (bk, rest) ← takeShape rest
+        let (be, rest) ← if he == 1 then takeShape rest else pure ([], rest)
+        match rest with
+        | n :: rest =>
+          let n ← nat n
+          let xs ← nums rest
+          let np := Batch.numel bp; let nk := Batch.numel bk; let ne := Batch.numel be
+          let (pd, xs) ← Wire.take (np * n * 3) xs
+          let (kd, xs) ← Wire.take (nk * 9) xs
+          let P : Batch.T (List (Vec3 BigF)) := ⟨bp, fun i => (List.range n).map fun j => v3 pd ((i * n + j) * 3)⟩
+          let K : Batch.T (Mat3 BigF) := ⟨bk, fun i => mat3 kd (i * 9)⟩
+          let E : Option (Batch.T (SE3 BigF)) ← (if he == 1 then do
+              let (ed, _) ← Wire.take (ne * 7) xs
+              pure (some ⟨be, fun i => toSE3 ed (i * 7)⟩) else pure none)
+          match point2pixelBatch dtp P K E with
+          | none => throw "broadcast"
+          | some out =>
+            let vals := (List.range (Batch.numel out.shape)).flatMap fun kx => (out.data kx).flatten
+            return fmtMixed (fmtShape out.shape) (fmt vals)
+        | [] => throw "arity"
+      | _ => throw "arity"),
+  -- c18.api.px2ptb <shape bp> <shape bd> <shape bk> n <pixels> <depth> <K>   -> <shape out> values; err broadcast | focal-zero
+  ("c18.api.px2ptb", fun ts => do
+      let (bp, rest) ← takeShape ts
+      let (bd, rest) ← takeShape rest
+      let (bk, rest) ← takeShape rest
+      match rest with
+      | n :: rest =>
+        let n ← nat n
+        let xs ← nums rest
+        let np := Batch.numel bp; let nd := Batch.numel bd; let nk := Batch.numel bk
+        let (pd, xs) ← Wire.take (np * n * 2) xs
+        let (dd, xs) ← Wire.take (nd * n) xs
+        let (kd, _) ← Wire.take (nk * 9) xs
+        let PX : Batch.T (List (BigF × BigF)) := ⟨bp, fun i => (List.range n).map fun j =>
+          (pd.getD ((i * n + j) * 2) default, pd.getD ((i * n + j) * 2 + 1) default)⟩
+        let DP : Batch.T (List BigF) := ⟨bd, fun i => (List.range n).map fun j => dd.getD (i * n + j) default⟩
+        let K : Batch.T (Mat3 BigF) := ⟨bk, fun i => mat3 kd (i * 9)⟩
+        match pixel2pointBatch PX DP K with
+        | none => throw "broadcast"
+        | some out =>
+          let items := (List.range (Batch.numel out.shape)).flatMap fun kx => out.data kx
+          if items.any (·.isNone) then throw "focal-zero"
+          return fmtMixed (fmtShape out.shape) (fmt (items.flatMap fun o => (o.getD ⟨default, default, default⟩).toList))
+      | [] => throw "arity"),
   -- c18.c2h <p>
   ("c18.c2h", numeric fun xs => .ok (cart2homo xs)),
   -- c18.h2c tiny <p>
